@@ -14,9 +14,11 @@ from vf import codec_run as R
 META = {
     'technique': 'Coq proof (induction over type trees; bit-level lemmas for varint/vint) that the model of cqltypes.to_binary equals an '
                  'independent specification of Cassandra\'s serializers + differential correspondence of model and spec with the real driver',
-    'level_text': 'C02_exact_or_rejects (to_binary = Some (spec_enc) exactly on the values in range, None on every other value of the right kind), '
-                  'C02_decodes_image, varint_minimal / vint_matches_VIntCoding style lemmas, proved over Model/CqlCodec.v and Model/CassandraSpec.v; '
-                  'driver bytes are compared with the Coq specification on generated values every run.',
+    'level_text': 'PARTIAL proof: C02_fixed_width_exact, C02_scalar_exact_partial (all scalars but varint/decimal/duration: exact bytes on the range, '
+                  'refused outside), C02_null_element_exact (-1 for null, refused in v1/v2), C02_zigzag_exact, C02_uvint_reads_back, C02_vints_decode, '
+                  'C02_varint_value, C02_never_another_value and C02_decodes_image (all types, unbounded nesting) are proved. NOT proved: the lifting '
+                  'to_binary = spec_enc through arbitrary type trees (C02_full_statement), varint = BigInteger.toByteArray minimality, vint = VIntCoding; '
+                  'these are checked every run by comparing the driver\'s bytes with the Coq specification on generated nested values.',
     'level_note': 'The specification is my transcription of Cassandra\'s serializers (trusted). Fixed-width table for vectors is the driver\'s own. '
                   'float32 rounding of Python floats is struct\'s (floats are quantified as bit patterns). marshal.py functions are hand-modelled '
                   '(MarshalModel.v) and tied by correspondence until they are regenerated from source.',
